@@ -264,6 +264,19 @@ func (f *FuncCtx) isParamOf(o types.Object, body ast.Node) bool {
 
 // specPkg resolves an imported package by its local name (for contract expressions).
 func (f *FuncCtx) specPkg(name string) *types.Package {
+	// import aliases of the package under verification (eth2p0 "github.com/.../phase0")
+	for _, file := range f.Pkg.Syntax {
+		for _, im := range file.Imports {
+			if im.Name != nil && im.Name.Name == name {
+				path := strings.Trim(im.Path.Value, "\"")
+				for _, imp := range f.Pkg.Types.Imports() {
+					if imp.Path() == path {
+						return imp
+					}
+				}
+			}
+		}
+	}
 	base := f.Pkg.Types
 	if f.spec != nil && f.spec.pkg != nil {
 		base = f.spec.pkg
